@@ -70,9 +70,9 @@ LINE_EXCESS_MIN = 100  # executed lines over the allowance before one function's
 # Looking a name up walks the open scopes innermost-first: O(open scopes) per
 # identifier by design, so a family that puts one identifier into each of k
 # nested brace scopes executes k^2/2 iterations of that 3-line loop (struct
-# nesting to depth 32: ~1500 lines of 60000).  Known and accepted (DESIGN, C16
-# assumptions: 'scope-stack lookup'); reported to the lead; not counted here.
-LINE_EXEMPT = {"_is_type_in_scope"}
+# nesting to depth 32: ~1500 lines of 60000).  Not exempted: recorded as an
+# open known finding narrowed to the families it was seen on (lead).
+LINE_EXEMPT = set()
 FUNC_EXCESS_MIN = 24  # calls over the oracle's allowance before one function's count matters
 BULK_EXCESS_MIN = 64  # container items over the allowance
 
@@ -837,6 +837,7 @@ def run(tier):
                 r = eval_family(r["kind"], r["key"], r["sizes"], exact=True)
                 r["origin"] = origin
             case = {"kind": r["kind"], "key": r["key"], "sizes": r["sizes"],
+                    "family": family_name(r["kind"], r["key"]),
                     "text_at_smallest_size": family_text(r["kind"], r["key"], r["sizes"][0])}
             fails.append((sig, case, describe(r)))
     R.fail_many(fails)
